@@ -207,4 +207,18 @@ def driftActive (est : TArr → Option (Int × Int)) (b0 b1 : Nat) (a : TArr) : 
   | none => .error .value
   | some (tx, ty) => .ok ⟨a.dt, ⟨b0, b1, shift2 0 a.arr.n0 a.arr.n1 ty tx a.arr.get⟩⟩
 
+/-! ### colour correction, inactive (round 6) -/
+
+/-- the options of ColorCorrection other than `active` -/
+structure ColourOpts where
+  clip : Bool
+  whitebalancing : Bool
+  affine : Bool          -- colorbalancing = "affine" (else "linear")
+  colour : Bool          -- balancing = "colour" (else "darsia")
+
+/-- `ColorCorrection.correct_array` with `active = False`: `skimage.img_as_float(img).astype(float32)` whatever the other
+options are (in particular NO clipping); values as rationals, the float32 rounding is not modelled -/
+def colourInactive (_opts : ColourOpts) (a : TArr) : TArr :=
+  ⟨.f64, ⟨a.arr.n0, a.arr.n1, fun i j => convVal a.dt .f64 false (a.arr.get i j)⟩⟩
+
 end Darsia.Corrections
